@@ -97,6 +97,22 @@ class Driver:
                 raise ValueError("callback fault (scripted)")
             if cb["raise"] == "stop":
                 raise StopIteration
+        # the property quantifies over user callbacks: any callable will do, not only a plain function (a functools.partial
+        # and a callable object have no __name__, a bound method is not a function) - the form varies with the callback
+        form = (i + len(cb["ops"]) + len(self.sc.get("ops", []))) % 4
+        if form == 1:
+            import functools
+            return functools.partial(lambda f: f(), fn)
+        if form == 2:
+            class CallableObject:
+                def __call__(self_inner):
+                    return fn()
+            return CallableObject()
+        if form == 3:
+            class Holder:
+                def method(self_inner):
+                    return fn()
+            return Holder().method
         return fn
 
     def frac(self, g):
